@@ -114,7 +114,7 @@ func watchdog() {
 	last := kernel.Progress.Load()
 	lastChange := time.Now()
 	start := time.Now()
-	stall := 20 * time.Second
+	stall := 60 * time.Second
 	if v := os.Getenv("VERIF_WATCHDOG_S"); v != "" {
 		if n, err := strconv.Atoi(v); err == nil {
 			stall = time.Duration(n) * time.Second
